@@ -67,6 +67,7 @@ def c01(tier, seed):
     from bounded import hist
     run.add_bounded("solve table after edit histories (solve, edit, solve)", hist.random_history_family(seed, _n(tier, 200, 4000), _n(tier, 6, 10), ["C01", "C16"]))
     run.notes.append("composition (paper argument, not machine-checked): per-node laws + call-site obligations + _solve contract give the row-level statement within K*(vtol+itol)")
+    _alias(run, 'C01', seed, tier)
     return run.finish()
 
 
@@ -93,6 +94,8 @@ def c04(tier, seed):
     from bounded import families as BF, hist
     run.add_bounded("every single edit / configuration call from the base systems, then the table oracle", hist.single_call_family(["C04"]))
     run.add_bounded("solve, re-configure phases, solve vs fresh system", BF.reconfig_family(seed, _n(tier, 250, 6000), ["C04"]))
+    run.add_bounded("dead rails under loose solver tolerances", BF.loose_dead_family(seed, _n(tier, 300, 8000)))
+    SL.solve_loop(run)
     run.notes.append("composition by depth (paper lemma): parent outputs 0 V => child is dead => outputs 0 V and draws 0 A")
     return run.finish()
 
@@ -120,11 +123,13 @@ def c05(tier, seed):
     SL.pri_inp(run)
     comp_layer(run, "C05", ("outp", "inp"), (1, 2, 3, 4), seed, tier, kinds=["PMux"])
     SL.child_curr(run); SL.solve_slice(run, "C05"); SL.find_domain(run); SL.graph_helpers(run, "TABLE"); SL.parents_childs(run, "C05")
+    SL.registry(run, "C06"); SL.phase_lkup(run)          # which input is live depends on the phase configuration being stored under the component it was given for
     from bounded import families as BF
     run.add_bounded("mux live/dead patterns (exhaustive patterns x parameter sets)", BF.mux_family(seed, tier))
     from bounded import hist
     run.add_bounded("every single edit / configuration call from the base systems, then the table oracle", hist.single_call_family(["C05"]))
     table_layer(run, "solve-table-oracle/mux", ["C05"], seed, _n(tier, 400, 20000), dict(p_mux=1.0, n_sources=(1, 3), p_dead_source=0.3, p_phases=0.5))
+    _alias(run, 'C05', seed, tier)
     return run.finish()
 
 
@@ -141,6 +146,7 @@ def c06(tier, seed):
     run.add_bounded("every single edit / configuration call from the base systems, then the table oracle", hist.single_call_family(["C06"]))
     table_layer(run, "solve-table-oracle/phases", ["C06"], seed, _n(tier, 400, 20000), dict(p_phases=1.0))
     run.notes.append("'per-phase solves are independent' is a paper argument (each phase runs _solve from _sys_init)")
+    _alias(run, 'C06', seed, tier)
     return run.finish()
 
 
@@ -164,13 +170,18 @@ def c09(tier, seed):
     run = Run("C09", tier, seed, "other", "bin/check C09 --tier " + tier)
     from . import system_layer as SL
     SL.warnings(run); SL.solve_slice(run, "C09"); SL.graph_helpers(run, "TABLE")
-    table_layer(run, "warnings oracle", ["C09"], seed, _n(tier, 500, 20000), dict(p_limits=0.9, p_phases=0.5, n_sources=(1, 2), p_mux=0.3, p_neg=0.4))
+    table_layer(run, "warnings oracle", ["C09"], seed, _n(tier, 500, 20000), dict(p_limits=0.9, p_phases=0.5, n_sources=(1, 2), p_mux=0.3, p_neg=0.4, p_table=0.35, p_orphan_conf=0.3))
     from bounded import families as BF
     run.add_bounded("limit boundaries and key subsets", BF.warn_boundary_family(seed, _n(tier, 200, 5000)))
     return run.finish()
 
 
 # ================================================================================================================ C14 / C15 / C16
+def _alias(run, pid, seed, tier):
+    from bounded import alias
+    run.add_bounded("shared argument objects (two systems / two components built from the same python objects)", alias.alias_family(seed, _n(tier, 48, 1500), [pid]))
+
+
 def _hist(run, props, seed, tier):
     from bounded import hist
     res = hist.history_family(seed, tier, props)
@@ -185,6 +196,7 @@ def c14(tier, seed):
     from . import system_layer as SL
     SL.registry(run, "C14"); SL.graph_helpers(run, "C14"); SL.parents_childs(run, "C14")
     _hist(run, ["C14"], seed, tier)
+    _alias(run, 'C14', seed, tier)
     return run.finish()
 
 
@@ -193,6 +205,7 @@ def c15(tier, seed):
     from . import system_layer as SL
     SL.registry(run, "C15")
     _hist(run, ["C15"], seed, tier)
+    _alias(run, 'C15', seed, tier)
     return run.finish()
 
 
@@ -205,6 +218,7 @@ def c16(tier, seed):
     run.add_bounded("construction orders of the same structure", BF.order_family(seed, _n(tier, 60, 2000), ["C16"]))
     run.add_bounded("solve, re-configure phases, solve vs fresh system", BF.reconfig_family(seed, _n(tier, 250, 6000), ["C16"]))
     run.notes.append("whole-history equivalence of two System objects is not a per-function contract: decided bounded (edited vs rebuilt from an independent reference model)")
+    _alias(run, 'C16', seed, tier)
     return run.finish()
 
 
@@ -263,6 +277,7 @@ def c10(tier, seed):
     from bounded import families as BF
     run.add_bounded("interpolation semantics on random tables", BF.interp_family(seed, _n(tier, 350, 14000)))
     run.notes.append("the interpolation arithmetic itself lives in numpy / scipy (external): exact-on-grid / linear / clamped / no-NaN is decided bounded; P covers our own clamp logic, argument magnitudes, table flattening and every call site")
+    _alias(run, 'C10', seed, tier)
     return run.finish()
 
 
@@ -286,6 +301,7 @@ def c17(tier, seed):
     from bounded import families as BF
     run.add_bounded("analysis interleavings (snapshot before the first analysis)", BF.analysis_family(seed, _n(tier, 160, 5000)))
     run.add_bounded("batt_life restoration", BF.battlife_family(seed + 1, _n(tier, 100, 3000)))
+    _alias(run, 'C17', seed, tier)
     return run.finish()
 
 
